@@ -306,8 +306,14 @@ class Module:
                 elif op in ('sext', 'zext', 'bitcast', 'trunc'):
                     mm = re.match(r'\w+ (.+?) (\S+) to (.+)$', rhs)
                     v = self.val(env, mm.group(2))
+                    if isinstance(v, SymBool):
+                        # a symbolic i1 widened to an integer (C: `int flag = (a == 0) && (b == 0);`): decide it here
+                        # (forks the path) - an integer register never holds a symbolic boolean
+                        v = bool(v)
                     if op == 'zext' and isinstance(v, bool):
                         v = int(v)
+                    elif op == 'sext' and isinstance(v, bool):
+                        v = -int(v)
                     env[dst] = v
                 elif op == 'sitofp':
                     mm = re.match(r'\w+ (.+?) (\S+) to (.+)$', rhs)
@@ -352,6 +358,10 @@ class Module:
                     mm = re.match(r'icmp (\w+) (\S+) (\S+), (\S+)$', rhs)
                     a = self.val(env, mm.group(3))
                     b = self.val(env, mm.group(4))
+                    if isinstance(a, SymBool):
+                        a = bool(a)
+                    if isinstance(b, SymBool):
+                        b = bool(b)
                     p = mm.group(1)
                     if p == 'eq':
                         env[dst] = a == b
